@@ -187,9 +187,16 @@ func propC12(o *propOpts) *propResult {
 		each(string(b))
 		return res
 	}
+	// inputs on which a channel disagreed, alone and embedded in separator contexts
 	for _, s := range hintInputs(o) {
 		each(s)
+		for _, suf := range splitHintSuffixes {
+			each(s + suf)
+			each("a;" + s + suf)
+		}
 	}
 	splitInputs(o.tier, &rng{s: o.seed}, each)
 	return res
 }
+
+var splitHintSuffixes = []string{";", ";'", ";\"", ";`", ";'''", ";\"\"\"", "; x", ";*/", ";\n"}
